@@ -207,5 +207,7 @@ def run(ctx):
     C01_einsum.run_suites(ctx)
     dm_search(ctx)
     dm_history(ctx)
+    from props import C01_extra
+    C01_extra.run_suites(ctx, density=True)
     ctx.notes.append("DM correspondence: exhaustive (targets × control subsets) n<=3 (4 thorough) with Gaussian-integer gates and a non-Hermitian integer rho, random circuits; exact comparison; float search over the whole gate library")
     ctx.assumptions.append("theorems cover pure inputs, mixtures of pure inputs (linearity) and trace preservation; Hermiticity/positivity preservation follow from the mixture form and are exercised numerically")
